@@ -2,6 +2,7 @@ package main
 
 import (
 	"fmt"
+	"go/constant"
 	"go/token"
 	"go/types"
 	"strings"
@@ -72,35 +73,26 @@ func r161(c *Ctx, r *R) {
 	// IsPinned semantic table: recursive satisfies any depth, direct only depth 0
 	ip := c.fn(r, "api", "IPFSPinStatus.IsPinned")
 	if ip != nil {
-		okRec, okDir := true, false
+		// evaluated on every declared status and a spread of depths,
+		// however the function is written (switch, helper, table)
 		rec, dir := c.constNamed("api", "IPFSPinStatusRecursive"), c.constNamed("api", "IPFSPinStatusDirect")
-		for _, lf := range returnLeaves(ip, 0) {
-			if k, isK := constOf(lf.Val); isK {
-				if k != nil && boolVal(k) {
-					okRec = false // unconditional true
+		okCases, why := rec != nil && dir != nil, ""
+		if nt := c.namedType(r, "api", "IPFSPinStatus"); nt != nil && okCases {
+			for _, k := range declaredConsts(nt) {
+				for _, depth := range []int64{-1, 0, 1, 2, 50} {
+					_, got, ok := ssaEval(ip, bindParams(ip, map[int]constant.Value{0: k.Val(), 1: constant.MakeInt64(depth)}))
+					want := constant.Compare(k.Val(), token.EQL, rec)
+					if depth == 0 {
+						want = constant.Compare(k.Val(), token.EQL, dir)
+					}
+					if !ok || got.Kind() != constant.Bool || constant.BoolVal(got) != want {
+						okCases = false
+						why = fmt.Sprintf(" (%s at depth %d: want %v, evaluated: %v)", k.Name(), depth, want, ok)
+					}
 				}
-				continue
-			}
-			b, ok := lf.Val.(*ssa.BinOp)
-			if !ok || b.Op != token.EQL || paramIndex(ip, b.X) != 0 {
-				okRec = false
-				continue
-			}
-			depthZero := lf.GuardedBy(func(g Guard) bool {
-				x, k, tme, isEq := eqConst(g.Cond)
-				if !isEq || tme != g.Branch || paramIndex(ip, x) != 1 {
-					return false
-				}
-				iv, _ := constInt(ssa.NewConst(k, x.Type()))
-				return iv == 0
-			})
-			if depthZero {
-				okDir = isConst(b.Y, dir)
-			} else if !isConst(b.Y, rec) {
-				okRec = false
 			}
 		}
-		r.Check(okRec && okDir, "ispinned:cases", ip.Pos(), "IsPinned: depth 0 needs a direct pin, any other depth a recursive pin", "IsPinned no longer requires a direct pin for depth 0 and a recursive pin otherwise")
+		r.Check(okCases, "ispinned:cases", ip.Pos(), "IsPinned: depth 0 needs a direct pin, any other depth a recursive pin (evaluated for every status)", "IsPinned no longer requires a direct pin for depth 0 and a recursive pin otherwise"+why)
 	}
 }
 
